@@ -154,6 +154,18 @@ def _expand_call(fn, c):
                 return [{"field": fields[i], "target": f"{var.get('n')}[{i}]", "size": _norm_size(f"sizeof({elem})"),
                          "line": c.get("line"), "node": c} for i in range(n)]
     rf = modref.root_field(tgt) if tgt is not None else None
+    if rf is None and tgt is not None and tgt.get("k") == "DeclRefExpr" and (tgt.get("ref") or {}).get("k") == "VarDecl" and \
+            "*" in ((tgt.get("ref") or {}).get("t") or ""):
+        vid = tgt["ref"].get("id")
+        var = next((x for x in cir.walk(fn) if x.get("k") == "VarDecl" and x.get("id") == vid), None)
+        iv = [x for x in cir.kids(var) if x is not None] if var is not None else []
+        reassigned = any(x.get("k") == "BinaryOperator" and x.get("op") == "=" and cir.strip(cir.kids(x)[0]) is not None and
+                         cir.strip(cir.kids(x)[0]).get("k") == "DeclRefExpr" and (cir.strip(cir.kids(x)[0]).get("ref") or {}).get("id") == vid
+                         for x in cir.walk(fn))
+        if iv and not reassigned:
+            rf2 = modref.root_field(iv[-1])
+            if rf2 and rf2[0] == "mjModel":
+                return [{"field": rf2[1], "target": cir.text(iv[-1]), "size": _norm_size(size_txt), "line": c.get("line"), "node": c}]
     return [{"field": rf[1] if rf else cir.text(tgt), "target": cir.text(tgt), "size": _norm_size(size_txt),
              "line": c.get("line"), "node": c}]
 
@@ -334,6 +346,55 @@ def run(res, tier):
                         f"bufread of `{size}` into {cir.text(tgt)} is not covered by a preceding truncation guard (warning + return NULL)")
     if nacc != len(r):
         raise AnalysisError(f"IO-GUARD: {nacc} reads in the canonical loader, {len(r)} in the sequence rule")
+
+    # ---------------------------------------------------------------- IO-NOREWRITE
+    # what the loader read must be what the caller gets: in the canonical loader (static helpers inlined) nothing stores into a
+    # member of the serialised by-value blocks (the struct members of mjModel that are read with one bufread each) except
+    # bufread itself -- a "sanitiser" after the read makes load(save(m)) differ from m for values it considers invalid
+    res.rule("IO-NOREWRITE", "the loader does not store into the blocks it has read (only bufread writes them)", floor=1)
+    blocks = sorted({x["field"] for x in r if x.get("field") and any(f_["name"] == x["field"] and
+                     ("struct" in (f_["dtype"] or "") or f_["dtype"].startswith("mj")) and "*" not in f_["dtype"] for f_ in mfields)})
+    if not blocks:
+        raise AnalysisError("no by-value struct block (opt / vis / stat) found among the loader's reads")
+    rew = []
+    mvars = {x.get("n") for x in cir.walk(fn) if x.get("k") == "VarDecl" and "mjModel" in (x.get("t") or "")}
+    # local pointers to a block (a helper's parameter bound by the inliner, or a hoisted `mjOption* opt = &m->opt`)
+    alias = {}
+    for x in cir.walk(fn):
+        if x.get("k") == "VarDecl" and "*" in (x.get("t") or "") and "const" not in (x.get("t") or "").split("*")[0]:
+            iv = [c_ for c_ in cir.kids(x) if c_ is not None]
+            if iv:
+                m_ = re.match(r"\(?&\(?(\w+)->(\w+)\)?\)?$", cir.text(iv[-1]).replace(" ", ""))
+                if m_ and m_.group(1) in mvars and m_.group(2) in blocks:
+                    alias[x.get("n")] = m_.group(2)
+    for x in cir.walk(lbody):
+        k_ = x.get("k")
+        if (k_ == "BinaryOperator" and x.get("op") == "=") or k_ == "CompoundAssignOperator" or \
+                (k_ == "UnaryOperator" and x.get("op") in ("++", "--")):
+            t_ = cir.text(cir.kids(x)[0])
+            m_ = re.match(r"\(?\*?&?(\w+)\)?->(\w+)\b", t_)
+            if m_ and m_.group(1) in mvars and m_.group(2) in blocks:
+                rew.append((m_.group(2), x))
+            m2 = re.match(r"\(?\*?([\w$]+)\)?(->|\[|\.)", t_)
+            if m2 and m2.group(1) in alias:
+                rew.append((alias[m2.group(1)], x))
+    from .. import modref as _mr
+    for x in cir.walk(lbody):
+        if cir.is_call(x) and cir.callee(x) not in ("bufread",):
+            ce = cir.callee_expr(x)
+            pt = _mr._param_types((ce.get("ref") or {}).get("t") if ce is not None and ce.get("k") == "DeclRefExpr" else None)
+            for j_, a_ in enumerate(cir.args(x)):
+                m_ = re.match(r"\(?&\(?(\w+)->(\w+)\b", cir.text(a_).replace(" ", ""))
+                if m_ and m_.group(1) in mvars and m_.group(2) in blocks and (j_ >= len(pt) or not _mr._const_pointee(pt[j_])):
+                    rew.append((m_.group(2), x))
+    for b_ in blocks:
+        hit = [x for f_, x in rew if f_ == b_]
+        if hit:
+            res.bad("IO-NOREWRITE", f"load:{b_}", FILE, hit[0].get("line"),
+                    f"the loader stores into m->{b_} after reading it (`{cir.text(hit[0])[:70]}`): a model whose value there is rewritten "
+                    f"does not survive save / load unchanged")
+        else:
+            res.ok("IO-NOREWRITE", f"load:{b_}", None)
 
     # ---------------------------------------------------------------- IO-COVER
     res.rule("IO-COVER", "every mjModel member is serialised or exempt", floor=500)
